@@ -1,8 +1,92 @@
+import PyGam.Model.Links
+import PyGam.Model.XR
 import PyGam.Drv.Common
+/-!
+Driver operations of C07 (`C07 <op> <args…>`), executing the definitions of `Model/Links.lean` and
+`Model/XR.lean` that `Props/C07.lean` is about.
+
+* `val <link|mu|grad> <kind> <levels:bits> <x:bits>…`      → `b… b… …`   (`linkFn/linkInv/linkGrad` at `Float`)
+* `xval <link|mu|grad> <kind> <levels:rat> <x:xr>…`        → one class per x: `nan | inf | -inf | fin | fin:<rat>`
+  (`linkFn/…` at `XR Rat`; the exact value is printed where no transcendental function is involved)
+* `checky <kind> <levels:rat> <y:xr>…`                     → `accept | reject`   (`checkY`)
+* `domain <kind> <levels:rat>`                             → `<lo:xr> <hi:xr>` | `none`   (`getLinkDomain`)
+
+`xr` tokens: `nan`, `inf`, `-inf` or a rational `num/den`.
+-/
 namespace PyGam.Drv.C07
 open PyGam PyGam.Drv
 
-/-- operations of the C07 model driver (`C07 <op> <args…>`); `none` ↦ `bad-op` -/
+def parseXR? (s : String) : Option (XR Rat) :=
+  if s = "nan" then some XR.nan
+  else if s = "inf" then some XR.posInf
+  else if s = "-inf" then some XR.negInf
+  else (parseRat? s).map XR.fin
+
+def showXR (withValue : Bool) : XR Rat → String
+  | XR.nan => "nan"
+  | XR.posInf => "inf"
+  | XR.negInf => "-inf"
+  | XR.fin a => if withValue then "fin:" ++ showRat a else "fin"
+
+def showXRplain : XR Rat → String
+  | XR.fin a => showRat a
+  | x => showXR false x
+
+/-- which of `link | mu | grad` -/
+inductive Fn | link | mu | grad
+
+def parseFn? : String → Option Fn
+  | "link" => some Fn.link | "mu" => some Fn.mu | "grad" => some Fn.grad | _ => none
+
+def evalFloat (f : Fn) (k : LinkKind) (levels x : Float) : Float :=
+  match f with
+  | Fn.link => linkFn k levels x
+  | Fn.mu => linkInv k levels x
+  | Fn.grad => linkGrad k levels x
+
+section
+-- finite values of exp/log/sqrt are abstracted (see `ExpLog.classOnlyRat`): classes only
+attribute [local instance] ExpLog.classOnlyRat
+
+def evalXR (f : Fn) (k : LinkKind) (levels : Rat) (x : XR Rat) : XR Rat :=
+  match f with
+  | Fn.link => linkFn k (XR.fin levels) x
+  | Fn.mu => linkInv k (XR.fin levels) x
+  | Fn.grad => linkGrad k (XR.fin levels) x
+
+def checkYRat (k : LinkKind) (levels : Rat) (ys : List (XR Rat)) : Verdict := checkY k levels ys
+def domainRat (k : LinkKind) (levels : Rat) : Option (XR Rat × XR Rat) := getLinkDomain k levels
+end
+
+/-- the (function, link) pairs whose model value involves no `exp/log/sqrt`: the value is exact -/
+def isRational : Fn → LinkKind → Bool
+  | Fn.grad, _ => true
+  | Fn.link, LinkKind.identity => true
+  | Fn.link, LinkKind.inverse => true
+  | Fn.link, LinkKind.invSquared => true
+  | Fn.mu, LinkKind.identity => true
+  | Fn.mu, LinkKind.inverse => true
+  | _, _ => false
+
 def handle : List String → Option String
+  | "val" :: f :: k :: levels :: xs => do
+      let f ← parseFn? f; let k ← LinkKind.ofName? k
+      let levels ← parseFloat? levels; let xs ← parseFloats? xs
+      some (showFloatList (xs.map (evalFloat f k levels)))
+  | "xval" :: f :: k :: levels :: xs => do
+      let f ← parseFn? f; let k ← LinkKind.ofName? k
+      let levels ← parseRat? levels; let xs ← xs.mapM parseXR?
+      some (joinWith " " (xs.map (fun x => showXR (isRational f k) (evalXR f k levels x))))
+  | "checky" :: k :: levels :: ys => do
+      let k ← LinkKind.ofName? k
+      let levels ← parseRat? levels; let ys ← ys.mapM parseXR?
+      some (match checkYRat k levels ys with
+            | Verdict.accept => "accept" | Verdict.reject => "reject")
+  | ["domain", k, levels] => do
+      let k ← LinkKind.ofName? k
+      let levels ← parseRat? levels
+      some (match domainRat k levels with
+            | some (lo, hi) => showXRplain lo ++ " " ++ showXRplain hi
+            | none => "none")
   | _ => none
 end PyGam.Drv.C07
